@@ -391,7 +391,13 @@ def r3_sibling_agreement(run):
               "order of SigAlg / signed string / Signature changed", sg.loc())
     if sig_assign:
         v = sig_assign[0].ast.value
-        ok = unparse(v) == "base64.b64encode(signer.sign(string))"
+        # what is signed is the string built by the join, whatever it is named
+        jt = join_s[0].ast.targets[0] if join_s and isinstance(
+            join_s[0].ast, ast.Assign) else None
+        ok = jt is not None and unparse(v) == \
+            "base64.b64encode(signer.sign(%s))" % unparse(jt) and \
+            {d.node for d in scfg.rd.reaching(unparse(jt), sig_assign[0].id)} \
+            == {join_s[0].id}
         run.check(ok, "R3", sg.qual + "::Signature-value",
                   "Signature = base64(signer.sign(string))",
                   "Signature value is %s" % unparse(v), sg.loc(v))
